@@ -270,9 +270,61 @@ def compilePrefix (e : Ent) : Option Prefix :=
   | none => none
   | some n => if validatePrefix n = .ok then some ⟨n, isWellKnownPrefix n⟩ else none
 
+/-- `dns.IsFqdn`: ends in a dot that is not escaped (an even number of backslashes in front of it). -/
+def isFqdn (s : Name) : Bool :=
+  match s.reverse with
+  | '.' :: t => (t.takeWhile (· == '\\')).length % 2 == 0
+  | _ => false
+
+def isDigitC (c : Char) : Bool := '0' ≤ c && c ≤ '9'
+
+/-- the label walk of `dns.PackDomainName` over presentation text: `\\DDD` is
+the byte `(100·D+10·D+D) mod 256`, `\\X` the character `X`, an unescaped dot
+closes a label. `first`: at index 0; `many`: `len(s) > 1`; `off`: bytes packed
+so far. Errors (`none`): leading dot, two dots in a row, a label of 64 bytes or
+more, more than 256 bytes. -/
+def packGo (many : Bool) : Name → Bool → Bool → List UInt8 → List (List UInt8) → Nat → Option (List (List UInt8))
+  | [], _, _, _, acc, _ => some acc.reverse
+  | '\\' :: d0 :: d1 :: d2 :: rest, first, wasDot, cur, acc, off =>
+    if isDigitC d0 && isDigitC d1 && isDigitC d2 then
+      packGo many rest false false
+        (cur ++ [UInt8.ofNat (((d0.toNat - 48) * 100 + (d1.toNat - 48) * 10 + (d2.toNat - 48)) % 256)]) acc off
+    else packGo many (d1 :: d2 :: rest) false false (cur ++ [UInt8.ofNat d0.toNat]) acc off
+  | '\\' :: c :: rest, _, _, cur, acc, off => packGo many rest false false (cur ++ [UInt8.ofNat c.toNat]) acc off
+  | ['\\'], _, _, _, _, _ => none
+  | '.' :: rest, first, wasDot, cur, acc, off =>
+    if first && many then none
+    else if wasDot then none
+    else if cur.length ≥ 64 then none
+    else if off + 1 + cur.length > 256 then none
+    else packGo many rest false true [] (cur :: acc) (off + 1 + cur.length)
+  | c :: rest, _, _, cur, acc, off => packGo many rest false false (cur ++ [UInt8.ofNat c.toNat]) acc off
+
+/-- `dns.PackDomainName` followed by `dns.UnpackDomainName`: the label list a
+presentation text denotes, if the library reads it as a name (fully qualified,
+well-formed labels, at most 255 wire bytes with the root). -/
+def packName (s : Name) : Option (List (List UInt8)) :=
+  if s.isEmpty then none
+  else if !isFqdn s then none
+  else if s == ['.'] then some []
+  else match packGo (decide (s.length > 1)) s true false [] [] 0 with
+    | none => none
+    | some ls =>
+      let wire := (ls.map fun l => l.length + 1).sum
+      if wire ≥ 256 then none          -- no room for the root label: `ErrBuf`
+      else if wire ≥ 255 then none     -- `UnpackDomainName`: `ErrLongDomain`
+      else some ls
+
+/-- `canonicalZoneText`: the library's lower-case rendering of the name the
+text denotes; a text the library cannot read is kept. -/
+def canonicalZoneText (z : Name) : Name :=
+  match packName z with
+  | some ls => lower (present ls)
+  | none => z
+
 def compileZone (z : Name) : Option Name :=
   let z := trimSpace (lower z)
-  if z.isEmpty then none else some (if hasSuffix z ['.'] then z else z ++ ['.'])
+  if z.isEmpty then none else some (canonicalZoneText (if hasSuffix z ['.'] then z else z ++ ['.']))
 
 /-- `compileConfig` (enabled). `xa` / `x6`: `none` = field omitted (nil). -/
 def compile (ps cs : List Ent) (zs : List Name) (xa x6 : Option (List Ent)) : Cfg :=
